@@ -467,6 +467,19 @@ func (u *UnitGen) frameObligations(entry, final *State, env *Env) {
 		if fin.S == ini.S {
 			continue
 		}
+		if k == "G:spawnedFn" || k == "G:spawnedArg0" {
+			// travel with "spawned": allowed exactly when a spawn is allowed
+			allowed := false
+			for _, l := range locs {
+				if l.key == k {
+					allowed = true
+				}
+			}
+			if !allowed {
+				u.oblige(final, "frame", "frame:"+frameName(k), "no goroutine is spawned (not in assigns)", Eq(fin, ini))
+			}
+			continue
+		}
 		if k == "G:spawned" {
 			allowed := false
 			for _, l := range locs {
